@@ -45,6 +45,16 @@ func checkSkipMemoKeyCoversInputs(c *core.Ctx, r *core.Rule, prog *core.Prog, ex
 		if pkg == nil {
 			continue
 		}
+		memoCallSites = map[*ssa.Function][]ssa.CallInstruction{}
+		for _, top := range core.PkgFuncs(prog.SSA, pkg) {
+			for _, fn := range core.AllFuncs(top) {
+				for _, call := range core.Calls(fn) {
+					if cal := call.Common().StaticCallee(); cal != nil {
+						memoCallSites[cal] = append(memoCallSites[cal], call)
+					}
+				}
+			}
+		}
 		for _, top := range core.PkgFuncs(prog.SSA, pkg) {
 			for _, fn := range core.AllFuncs(top) {
 				for _, site := range findSkipMemos(fn) {
@@ -114,11 +124,116 @@ type skipMemo struct {
 	miss      *ssa.BasicBlock
 }
 
+// memoCallSites: static call sites per callee in the package under analysis (for map parameters).
+var memoCallSites map[*ssa.Function][]ssa.CallInstruction
+
+// paramMapLongLived: the map parameter receives, at some call site in the package, a map that lives in a field or a
+// package-level variable (directly or through the same parameter of the caller, one level).
+func paramMapLongLived(p *ssa.Parameter, depth int) (string, bool) {
+	fn := p.Parent()
+	idx := -1
+	for i, q := range fn.Params {
+		if q == p {
+			idx = i
+		}
+	}
+	if idx < 0 || depth > 2 {
+		return "", false
+	}
+	for _, call := range memoCallSites[fn] {
+		args := call.Common().Args
+		if idx >= len(args) {
+			continue
+		}
+		switch a := args[idx].(type) {
+		case *ssa.UnOp:
+			if a.Op != token.MUL {
+				continue
+			}
+			switch x := a.X.(type) {
+			case *ssa.Global:
+				return core.ShortPkg(x.Pkg.Pkg.Path()) + "." + x.Name(), true
+			case *ssa.FieldAddr:
+				if pt, ok := x.X.Type().Underlying().(*types.Pointer); ok {
+					if st, ok := pt.Elem().Underlying().(*types.Struct); ok {
+						if _, isAlloc := x.X.(*ssa.Alloc); !isAlloc {
+							tn := types.TypeString(pt.Elem(), func(p *types.Package) string { return p.Name() })
+							return tn + "." + st.Field(x.Field).Name(), true
+						}
+					}
+				}
+			}
+		case *ssa.Parameter:
+			if a.Parent() != fn {
+				if n, ok := paramMapLongLived(a, depth+1); ok {
+					return n, true
+				}
+			}
+		}
+	}
+	return "", false
+}
+
+// cellParam: the cell (a spilled parameter, or a free variable bound to one in the enclosing function) holds a parameter
+// and nothing else.
+func cellParam(cell ssa.Value, d int) *ssa.Parameter {
+	if d > 3 {
+		return nil
+	}
+	switch x := cell.(type) {
+	case *ssa.Alloc:
+		var p *ssa.Parameter
+		for _, ref := range *x.Referrers() {
+			if st, ok := ref.(*ssa.Store); ok && st.Addr == ssa.Value(x) {
+				q, isP := st.Val.(*ssa.Parameter)
+				if !isP || p != nil {
+					return nil
+				}
+				p = q
+			}
+		}
+		return p
+	case *ssa.FreeVar:
+		fn := x.Parent()
+		par := fn.Parent()
+		if par == nil {
+			return nil
+		}
+		for _, b := range par.Blocks {
+			for _, in := range b.Instrs {
+				if mc, ok := in.(*ssa.MakeClosure); ok && mc.Fn == ssa.Value(fn) {
+					for i, fv := range fn.FreeVars {
+						if fv == x {
+							return cellParam(mc.Bindings[i], d+1)
+						}
+					}
+				}
+			}
+		}
+	}
+	return nil
+}
+
 // mapIdentity names a long-lived map: field of a struct not allocated in fn, or a global.
 func mapIdentity(v ssa.Value) (name, ownerRoot string, ok bool) {
+	if p, isP := v.(*ssa.Parameter); isP {
+		if _, isMap := p.Type().Underlying().(*types.Map); isMap {
+			if n, ok := paramMapLongLived(p, 0); ok {
+				return n + " (as parameter " + p.Name() + ")", p.Name(), true
+			}
+		}
+		return "", "", false
+	}
+	if fv, isFV := v.(*ssa.FreeVar); isFV {
+		_ = fv
+		return "", "", false
+	}
 	u, isU := v.(*ssa.UnOp)
 	if !isU || u.Op != token.MUL {
 		return "", "", false
+	}
+	if p := cellParam(u.X, 0); p != nil {
+		return mapIdentity(p)
 	}
 	switch x := u.X.(type) {
 	case *ssa.Global:
@@ -183,6 +298,36 @@ func accessPathOf(v ssa.Value, d int) string {
 		return accessPathOf(x.X, d+1)
 	case *ssa.MakeInterface:
 		return accessPathOf(x.X, d+1)
+	case *ssa.IndexAddr:
+		if b := accessPathOf(x.X, d+1); b != "" {
+			return b + "[]"
+		}
+	case *ssa.Index:
+		if b := accessPathOf(x.X, d+1); b != "" {
+			return b + "[]"
+		}
+	case *ssa.Lookup:
+		if _, isMap := x.X.Type().Underlying().(*types.Map); isMap {
+			if b := accessPathOf(x.X, d+1); b != "" {
+				return b + "[]"
+			}
+		}
+	case *ssa.Extract:
+		switch t := x.Tuple.(type) {
+		case *ssa.Next:
+			if rg, ok := t.Iter.(*ssa.Range); ok && x.Index >= 1 {
+				if b := accessPathOf(rg.X, d+1); b != "" {
+					if x.Index == 1 {
+						return b + "[key]"
+					}
+					return b + "[]"
+				}
+			}
+		case *ssa.Lookup:
+			if x.Index == 0 {
+				return accessPathOf(t, d+1)
+			}
+		}
 	case *ssa.Alloc:
 		// a cell holding one stored value (spilled parameter / captured variable): the stored value's path
 		var only ssa.Value
@@ -325,6 +470,10 @@ func leavesQuickly(hit, miss *ssa.BasicBlock) bool {
 		if b == miss || seen[b] {
 			return false
 		}
+		// `continue`: back at a block that dominates the test (the loop head) without having entered the miss side
+		if i > 0 && b.Dominates(miss) && !miss.Dominates(b) {
+			return true
+		}
 		seen[b] = true
 		for _, in := range b.Instrs {
 			if mi, ok := in.(*ssa.MakeInterface); ok && core.IsErrorType(mi.Type()) {
@@ -352,6 +501,9 @@ func leavesQuickly(hit, miss *ssa.BasicBlock) bool {
 			return returnsSuccess(t)
 		case *ssa.Jump:
 			b = t.Block().Succs[0]
+			if b.Dominates(miss) && !miss.Dominates(b) {
+				return true // continue
+			}
 			// a jump into a block that the miss side also reaches is a join, not a skip
 			if len(b.Preds) > 1 {
 				if ret, isRet := b.Instrs[len(b.Instrs)-1].(*ssa.Return); isRet && len(b.Instrs) <= 3 {
@@ -987,6 +1139,12 @@ func flowsOnlyToDiagnostics(v ssa.Value, user ssa.Instruction, scope func(ssa.In
 			if allErr {
 				return true
 			}
+			if bi, ok := cc.Value.(*ssa.Builtin); ok && bi.Name() == "append" {
+				// appended to a list: the list is stored, the element does not decide anything here
+				if val, ok := in.(ssa.Value); ok && len(cc.Args) > 0 {
+					return usesOnlyDiagnostic(val, scope, d+1, seen)
+				}
+			}
 			if strings.HasPrefix(name, "fmt.Sprint") || strings.HasPrefix(name, "fmt.Errorf") {
 				if val, ok := in.(ssa.Value); ok {
 					return usesOnlyDiagnostic(val, scope, d+1, seen)
@@ -994,6 +1152,11 @@ func flowsOnlyToDiagnostics(v ssa.Value, user ssa.Instruction, scope func(ssa.In
 			}
 			return false
 		case *ssa.MakeInterface:
+			return usesOnlyDiagnostic(x, scope, d+1, seen)
+		case *ssa.MapUpdate:
+			// recorded as the value of an entry (interning table, registry): stored, not decided upon
+			return x.Value == v && x.Key != v
+		case *ssa.Phi:
 			return usesOnlyDiagnostic(x, scope, d+1, seen)
 		case *ssa.Convert:
 			return usesOnlyDiagnostic(x, scope, d+1, seen)
@@ -1011,6 +1174,15 @@ func flowsOnlyToDiagnostics(v ssa.Value, user ssa.Instruction, scope func(ssa.In
 						}
 					}
 					return true
+				}
+			}
+			// stored into a field of a long-lived object or through a pointer (x.list = append(x.list, s)): recorded
+			if x.Val == v {
+				switch a := x.Addr.(type) {
+				case *ssa.FieldAddr:
+					if _, isAlloc := a.X.(*ssa.Alloc); !isAlloc {
+						return true
+					}
 				}
 			}
 			// field of a struct literal that is itself only a diagnostic (wrapped error types)
